@@ -10,6 +10,14 @@ CONSTANTS
   CoverFaultProofs = {"correct"}
   DonorIdfs = {"absent"}
   ForgedIdfs = {"absent"}
+  RSALogs = {"L2"}
+  HashCodes = {"none", "md5", "sha1", "sha224", "sha256", "sha384", "sha512", "h7", "h8", "hx"}
+  SigAlgs = {"anon", "rsa", "dsa", "ecdsa", "s7", "s8", "sx"}
+  HdrIdfs = {"absent"}
+  HdrLogs = {"L1", "L2"}
+  HdrBuildSizes = {2}
+  HdrProofs = {"correct"}
+  HdrTofuFull = FALSE
   HistLogs = {"L1"}
   HistProofs = {"correct", "empty"}
   HistFaults = {"ctx"}
@@ -18,6 +26,6 @@ CONSTANTS
 INIT Init
 NEXT UncrossedNext
 VIEW StateView
-INVARIANTS TypeOK OnlySigned CosignedHeld HeldWasOffered
-PROPERTIES ForwardOnly RefusedNoChange Isolated CosignedIsHeldAct CosignedForward FaultedStoreRefused StorageErrorIsError OneHistoryPerLog ReplayedSigRefused ReplayedLikeBadSig
+INVARIANTS TypeOK OnlySigned CosignedHeld HeldWasOffered ExactHeaderOnly
+PROPERTIES ForwardOnly RefusedNoChange Isolated CosignedIsHeldAct CosignedForward FaultedStoreRefused StorageErrorIsError OneHistoryPerLog ReplayedSigRefused ReplayedLikeBadSig OtherHeaderRefused OtherHeaderLikeBadSig NoHashNoSignature
 CHECK_DEADLOCK FALSE
